@@ -252,6 +252,9 @@ func genArgs(r *Rand) []KV {
 	if r.Chance(0.2) {
 		out = append(out, KV{"b", vBool(r.Chance(0.5))})
 	}
+	if r.Chance(0.2) {
+		out = append(out, KV{"bin", vBytes(r.Bytes(r.Range(1, 24)))})
+	}
 	if spotWant(r, "starstr", 0.2) {
 		// a string that itself holds the characters the pattern language gives a meaning to
 		n := r.Range(1, 6)
@@ -346,7 +349,27 @@ func likePattern(r *Rand, s string, match bool) string {
 		}
 		return p
 	}
-	// a pattern that does not match: require a letter that is not in the alphabet of s
+	// a pattern that does not match: the exact pattern of a NEIGHBOUR of s (one backslash or star
+	// more or less), or require a letter that is not in the alphabet of s
+	if strings.ContainsAny(s, "*\\") || r.Chance(0.15) {
+		nb := s
+		switch r.Intn(4) {
+		case 0:
+			nb = "\\" + s
+		case 1:
+			i := r.Intn(len(s) + 1)
+			nb = s[:i] + Pick(r, []string{"\\", "*"}) + s[i:]
+		case 2:
+			if i := strings.IndexAny(s, "*\\"); i >= 0 {
+				nb = s[:i] + s[i+1:]
+			}
+		default:
+			nb = strings.NewReplacer("\\", "", "*", "").Replace(s) + "\\"
+		}
+		if nb != s {
+			return globLit(nb)
+		}
+	}
 	switch r.Intn(3) {
 	case 0:
 		return globLit(s) + "q"
